@@ -606,10 +606,12 @@ class Parser:
                 if '\n' in txt:
                     pos = txt.find('\n') + 1
                     t2.txt = txt[pos:]
-                    t2.pos += pos
                 else:
+                    pos = len(txt)
                     t2.txt = ''
-                    t2.pos += len(txt)
+                # NB: a token with fixed position does not cover source text
+                if not t2.pos_fix:
+                    t2.pos += pos
                 buf = [t1] + lang_toks
                 tokens.append(eval(t2))
                 # NB: we deleted a line break
